@@ -258,3 +258,45 @@ func (r *Run) depsThroughFunctions() {
 	})
 	r.frameObl("interp.getVarDependencies/deps:through-function-bodies", "references to package-level variables made inside the bodies of functions the initialiser mentions are dependencies (Go spec, package initialization)", handles, "the walk returns at every identifier that is not a variable symbol: function symbols are never followed")
 }
+
+// frameLayoutResync (C11): after an imported source package has been compiled, the importer's frame
+// layout is re-synchronised with the global one on every successful path — the assignment
+// `sc.types = interp.universe.types` is the first statement of the success branch of importSrc.
+func (r *Run) frameLayoutResync() {
+	p := r.L.ByName["interp"]
+	fd := r.L.FindFunc(p, "Interpreter.gta")
+	if fd == nil {
+		r.engineError("Interpreter.gta does not exist in the current tree")
+		return
+	}
+	found, ok := false, false
+	got := ""
+	ast.Inspect(fd.Body, func(n ast.Node) bool {
+		ifs, isIf := n.(*ast.IfStmt)
+		if !isIf || ifs.Init == nil {
+			return true
+		}
+		as, isAs := ifs.Init.(*ast.AssignStmt)
+		if !isAs || len(as.Rhs) != 1 {
+			return true
+		}
+		c, isCall := as.Rhs[0].(*ast.CallExpr)
+		if !isCall || calleeNameOf(p, c) != "interp.Interpreter.importSrc" {
+			return true
+		}
+		found = true
+		if types.ExprString(ifs.Cond) == "err == nil" && len(ifs.Body.List) > 0 {
+			if a, isA := ifs.Body.List[0].(*ast.AssignStmt); isA && len(a.Lhs) == 1 {
+				got = types.ExprString(a.Lhs[0]) + " = " + types.ExprString(a.Rhs[0])
+				ok = got == "sc.types = interp.universe.types"
+			}
+		}
+		return true
+	})
+	if !found {
+		r.engineError("gta: the importSrc call site was not found")
+		return
+	}
+	r.frameObl("interp.Interpreter.gta/import:frame-layout-resynchronised", "on every path where importSrc succeeded (named, dot and blank imports alike) the importer's frame layout is re-synchronised before it allocates further global slots", ok, "first statement of the success branch: "+got)
+	r.FuncsUC = append(r.FuncsUC, "interp.Interpreter.gta (import of a source package)")
+}
